@@ -57,6 +57,16 @@ func loadProgram(repo string, contractsMode string) (*Program, error) {
 			}
 		}
 	}
+	if b, err := os.ReadFile(filepath.Join(repo, "go.mod")); err == nil {
+		for _, ln := range strings.Split(string(b), "\n") {
+			f := strings.Fields(ln)
+			if len(f) == 2 && f[0] == "go" {
+				var maj, min int
+				fmt.Sscanf(f[1], "%d.%d", &maj, &min)
+				prog.perIterationLoopVars = maj > 1 || (maj == 1 && min >= 22)
+			}
+		}
+	}
 	// contracts
 	var files []string
 	source := ""
